@@ -14,16 +14,19 @@ inductive Touch (st : Core) (o : Nat) : Nat → Prop
   | child {a c : Nat} : Touch st o a → c ∈ childrenOf st a → Touch st o c
   | memo {a : Nat} {k : Key} {m ow : Nat} : Touch st o a → k ∈ nodesOf st a →
       st.arena.get k = some (Val.memo m ow) → Touch st o ow
+  | cdrop {a : Nat} {c : Cleanup} {ow : Nat} : Touch st o a → c ∈ cleanupsOf st a → c.drops = some ow →
+      Touch st o ow
 
 theorem modOwner_get_ne (st : Core) (o : Nat) (f : OwnerRec → OwnerRec) {x : Nat} (h : x ≠ o) :
     (st.modOwner o f).owners[x]? = st.owners[x]? := by
   rw [modOwner_get]; simp [h]
 
 /-- what `on_cleanup` does -/
-theorem regCleanup_spec (st : Core) (tag : Nat) (nested : Bool) :
-    (∀ x, currentOwner st ≠ some x → (regCleanup st tag nested).owners[x]? = st.owners[x]?) ∧
-    (∀ x c, c ∈ cleanupsOf (regCleanup st tag nested) x → c ∈ cleanupsOf st x ∨ c.cid = st.nextCid) ∧
-    (regCleanup st tag nested).cur = st.cur := by
+theorem regCleanup_spec (st : Core) (tag : Nat) (nested : Bool) (drops : Option Nat) :
+    (∀ x, currentOwner st ≠ some x → (regCleanup st tag nested drops).owners[x]? = st.owners[x]?) ∧
+    (∀ x c, c ∈ cleanupsOf (regCleanup st tag nested drops) x →
+      c ∈ cleanupsOf st x ∨ (c.cid = st.nextCid ∧ c.drops = drops)) ∧
+    (regCleanup st tag nested drops).cur = st.cur := by
   unfold regCleanup
   simp only
   cases hc : currentOwner { st with nextCid := st.nextCid + 1 } with
@@ -45,7 +48,7 @@ theorem regCleanup_spec (st : Core) (tag : Nat) (nested : Bool) :
           simp only [List.mem_append, List.mem_singleton] at h
           rcases h with h | h
           · exact Or.inl h
-          · exact Or.inr (by rw [h])
+          · exact Or.inr (by rw [h]; exact ⟨rfl, rfl⟩)
         · cases h
       · simp only [hx, if_false] at h; exact Or.inl h
 
@@ -80,11 +83,12 @@ structure FrameInv (st : Core) (o : Nat) (s : Core) (fs : List Frame) : Prop whe
   cur : s.cur = st.cur
   visits : ∀ x late, Frame.visit x late ∈ fs ∨ Frame.drop x late ∈ fs → Touch st o x
   removes : ∀ k late, Frame.remove k late ∈ fs → (∃ x, Touch st o x ∧ k ∈ nodesOf st x) ∨ ¬ Issued st.arena k
-  runs : ∀ c ow late, Frame.run c ow late ∈ fs → (∃ x, Touch st o x ∧ c ∈ cleanupsOf st x) ∨ st.nextCid ≤ c.cid
+  runs : ∀ c ow late, Frame.run c ow late ∈ fs →
+    (∃ x, Touch st o x ∧ c ∈ cleanupsOf st x) ∨ (st.nextCid ≤ c.cid ∧ c.drops = none)
   nextCid : st.nextCid ≤ s.nextCid
   children : ∀ x c, c ∈ childrenOf s x → c ∈ childrenOf st x
   nodes : ∀ x k, k ∈ nodesOf s x → k ∈ nodesOf st x ∨ ¬ Issued st.arena k
-  cleanups : ∀ x c, c ∈ cleanupsOf s x → c ∈ cleanupsOf st x ∨ st.nextCid ≤ c.cid
+  cleanups : ∀ x c, c ∈ cleanupsOf s x → c ∈ cleanupsOf st x ∨ (st.nextCid ≤ c.cid ∧ c.drops = none)
   old : ∀ k v, Issued st.arena k → s.arena.get k = some v → st.arena.get k = some v
   fresh : ∀ k v, ¬ Issued st.arena k → s.arena.get k = some v → ∃ n, v = Val.num n
   owners : ∀ x, ¬ Touch st o x → currentOwner st ≠ some x → s.owners[x]? = st.owners[x]?
@@ -136,7 +140,7 @@ theorem FrameInv.step {st : Core} (hst : NodesOK st) {o : Nat} {s : Core} (f : F
       h.children x c (by rw [childrenOf_eq]; unfold fieldOf; rw [hr]; exact hc)
     have rno : ∀ k, k ∈ r.nodes → k ∈ nodesOf st x ∨ ¬ Issued st.arena k := fun k hk =>
       h.nodes x k (by rw [nodesOf_eq]; unfold fieldOf; rw [hr]; exact hk)
-    have rcl : ∀ c, c ∈ r.cleanups → c ∈ cleanupsOf st x ∨ st.nextCid ≤ c.cid := fun c hc =>
+    have rcl : ∀ c, c ∈ r.cleanups → c ∈ cleanupsOf st x ∨ (st.nextCid ≤ c.cid ∧ c.drops = none) := fun c hc =>
       h.cleanups x c (by rw [cleanupsOf_eq]; unfold fieldOf; rw [hr]; exact hc)
     refine ⟨h.wf, h.le, h.cur, ?_, ?_, ?_, h.nextCid, ?_, ?_, ?_, h.old, h.fresh, ?_, h.keys, h.log⟩
     · intro y l2 hy
@@ -217,17 +221,50 @@ theorem FrameInv.step {st : Core} (hst : NodesOK st) {o : Nat} {s : Core} (f : F
       · exact h.log tag cid ow' l2 hm
       · have := List.mem_singleton.mp hm
         cases this
-        rcases hrun with ⟨x, hx, hc⟩ | hge
+        rcases hrun with ⟨x, hx, hc⟩ | ⟨hge, _⟩
         · exact Or.inr (Or.inl ⟨x, c, hx, hc, rfl⟩)
         · exact Or.inr (Or.inr hge)
+    -- what the closure owns is dropped after it has run: an owner of the scope
+    have mem_clos : ∀ g, g ∈ closureFrames c → ∃ ow', c.drops = some ow' ∧ g = Frame.drop ow' true := by
+      intro g hg
+      unfold closureFrames at hg
+      split at hg
+      · next ow' hd => exact ⟨ow', hd, List.mem_singleton.mp hg⟩
+      · cases hg
+    have vis' : ∀ x l2, Frame.visit x l2 ∈ closureFrames c ++ fs ∨ Frame.drop x l2 ∈ closureFrames c ++ fs →
+        Touch st o x := by
+      intro x l2 hx
+      rcases hx with hx | hx
+      · rcases List.mem_append.mp hx with hx | hx
+        · obtain ⟨_, _, he⟩ := mem_clos _ hx; cases he
+        · exact tail_visits x l2 (Or.inl hx)
+      · rcases List.mem_append.mp hx with hx | hx
+        · obtain ⟨ow', hd, he⟩ := mem_clos _ hx
+          cases he
+          rcases hrun with ⟨y, hy, hc⟩ | ⟨_, hnone⟩
+          · exact Touch.cdrop hy hc hd
+          · rw [hnone] at hd; cases hd
+        · exact tail_visits x l2 (Or.inr hx)
+    have rem' : ∀ k l2, Frame.remove k l2 ∈ closureFrames c ++ fs →
+        (∃ x, Touch st o x ∧ k ∈ nodesOf st x) ∨ ¬ Issued st.arena k := by
+      intro k l2 hk
+      rcases List.mem_append.mp hk with hk | hk
+      · obtain ⟨_, _, he⟩ := mem_clos _ hk; cases he
+      · exact tail_removes k l2 hk
+    have run' : ∀ c' ow' l2, Frame.run c' ow' l2 ∈ closureFrames c ++ fs →
+        (∃ x, Touch st o x ∧ c' ∈ cleanupsOf st x) ∨ (st.nextCid ≤ c'.cid ∧ c'.drops = none) := by
+      intro c' ow' l2 hk
+      rcases List.mem_append.mp hk with hk | hk
+      · obtain ⟨_, _, he⟩ := mem_clos _ hk; cases he
+      · exact tail_runs c' ow' l2 hk
     by_cases hn : c.nested = true
     · simp only [stepFrame, hn, if_true, List.nil_append]
       -- s1 = log, s2 = regCleanup, s3 = newItem, then the handle table
       let s1 := logEv s (Ev.c c.tag c.cid ow late)
-      let s2 := regCleanup s1 (c.tag + 100) false
+      let s2 := regCleanup s1 (c.tag + 100) false none
       have hcur1 : currentOwner s1 = currentOwner s := rfl
-      obtain ⟨r_own, r_cl, r_cur⟩ := regCleanup_spec s1 (c.tag + 100) false
-      have hs12 : SameShape s1 s2 := SameShape.regCleanup s1 _ _
+      obtain ⟨r_own, r_cl, r_cur⟩ := regCleanup_spec s1 (c.tag + 100) false none
+      have hs12 : SameShape s1 s2 := SameShape.regCleanup s1 _ _ _
       have hcur2 : currentOwner s2 = currentOwner s :=
         (currentOwner_congr r_cur hs12.alive).trans hcur1
       obtain ⟨i_arena, i_alive, i_sub, i_mono, i_new⟩ := newItem_spec s2 (Val.num c.tag)
@@ -266,7 +303,7 @@ theorem FrameInv.step {st : Core} (hst : NodesOK st) {o : Nat} {s : Core} (f : F
         rw [← hs2arena] at this
         exact insert_key_not_issued _ _ this
       unfold newStored
-      refine ⟨?_, ?_, ?_, tail_visits, tail_removes, tail_runs, ?_, ?_, ?_, ?_, ?_, ?_, ?_, ?_, ?_⟩
+      refine ⟨?_, ?_, ?_, vis', rem', run', ?_, ?_, ?_, ?_, ?_, ?_, ?_, ?_, ?_⟩
       · show (newItem s2 (Val.num c.tag)).1.arena.WF
         rw [i_arena, hs2arena]; exact h.wf.insert _
       · show ArenaLe st.arena (newItem s2 (Val.num c.tag)).1.arena
@@ -300,7 +337,7 @@ theorem FrameInv.step {st : Core} (hst : NodesOK st) {o : Nat} {s : Core} (f : F
         · exact h.cleanups x c' h1
         · right
           have : s1.nextCid = s.nextCid := rfl
-          rw [h1, this]; exact h.nextCid
+          exact ⟨by rw [h1.1, this]; exact h.nextCid, h1.2⟩
       · intro k v hi hg
         have hg2 : (newItem s2 (Val.num c.tag)).1.arena.get k = some v := hg
         rw [i_arena, hs2arena] at hg2
@@ -334,7 +371,7 @@ theorem FrameInv.step {st : Core} (hst : NodesOK st) {o : Nat} {s : Core} (f : F
         rw [newItem_log, regCleanup_log] at hm2
         exact hlog tag cid ow' l2 hm2
     · simp only [stepFrame, hn, if_false, Bool.false_eq_true, List.nil_append]
-      exact ⟨h.wf, h.le, h.cur, tail_visits, tail_removes, tail_runs, h.nextCid, h.children, h.nodes,
+      exact ⟨h.wf, h.le, h.cur, vis', rem', run', h.nextCid, h.children, h.nodes,
         h.cleanups, h.old, h.fresh, h.owners, h.keys, hlog⟩
   | remove k0 late =>
     have hrem := h.removes k0 late (List.mem_cons_self ..)
